@@ -72,13 +72,17 @@ def main(run):
         nmax, snapset = max(snaps), set(snaps)
         fails = []
         interference = j % 3 == 2
+        import numpy as np
+        kt = [int, np.int64, int, np.int32, np.intp, int, int][j % 7]      # capacities given as NumPy integers in some configurations
+        run.see("capacity-type", kt.__name__)
         irnd = random.Random(run.shard_seed + j)
         if interference:
             from .c08 import interfere
             runs = runs // 3
             run.count("configs-with-interleaved-library-objects")
         for _ in range(runs):
-            st = GeometricReservoirStorage(size=k, constant_probability=p, store_targets=False)
+            st = GeometricReservoirStorage(size=kt(k), constant_probability=p, store_targets=False)
+            upd = st.update if _ % 2 else None        # every other execution: a bound method taken before the first update
             prev = None
             at = irnd.randrange(nmax) if interference and irnd.random() < 0.5 else -1
             for i in range(nmax):
@@ -88,7 +92,7 @@ def main(run):
                 if interference and i % 9 == 7:
                     x = ("record", i)        # a non-dict record; whatever the storage does with it, the caller carries on
                 try:
-                    st.update(x)
+                    (upd or st.update)(x)
                 except Exception:
                     pass
                 cur = [(d["t"] if isinstance(d, dict) else d[1]) for d in st.get_data()[0]]
